@@ -149,15 +149,34 @@ def eval_term(t):
     if h == "call" and head(strip(t[1])) == "glob" and strip(t[1])[1] in ("builtins.list", "builtins.tuple", "builtins.sorted") and len(t[2]) == 1:
         v = eval_term(t[2][0])
         return {"builtins.list": list, "builtins.tuple": tuple, "builtins.sorted": sorted}[strip(t[1])[1]](v)
-    if h == "comp" and t[1] in ("list", "gen", "set") and len(t[3]) == 1 and not t[3][0][1]:
-        elem = t[3][0][0]
-        items = eval_term(elem[3])
+    if h == "comp" and t[1] in ("list", "gen", "set"):
         out = []
-        for it in items:
-            m = {elem: _lift_value(it)}
-            out.append(eval_term(_proj(subst(t[2], m))))
+
+        def gen(k, m):
+            if k == len(t[3]):
+                out.append(eval_term(_proj(subst(t[2], m))))
+                return
+            elem, conds = t[3][k]
+            for it in eval_term(_proj(subst(elem[3], m))):
+                m2 = dict(m)
+                m2[elem] = _lift_value(it)
+                m2[subst(elem, m)] = _lift_value(it)
+                if all(_truth(eval_term(_proj(subst(c, m2)))) for c in conds):
+                    gen(k + 1, m2)
+        gen(0, {})
         return out
+    if h == "cmp" and t[1] in ("==", "!=", "in", "notin"):
+        a, b = eval_term(t[2]), eval_term(t[3])
+        return {"==": a == b, "!=": a != b, "in": a in b if isinstance(b, (list, tuple, set, str)) else False, "notin": a not in b if isinstance(b, (list, tuple, set, str)) else True}[t[1]]
+    if h == "un" and t[1] == "not":
+        return not _truth(eval_term(t[2]))
     raise NotConstant(str(t)[:80])
+
+
+def _truth(v):
+    if isinstance(v, (bool, int, str, list, tuple, set)) or v is None:
+        return bool(v)
+    raise NotConstant("truth value")
 
 
 def _lift_value(v):
